@@ -78,7 +78,7 @@ theorem ctz_le64 (x : BitVec 64) : (Wasm.ctz x).ule 64#64 = true := by
 theorem ctz_conv64 (x : BitVec 64) : BitVec.signExtend 64 (BitVec.setWidth 32 (Wasm.ctz x)) = Wasm.ctz x := by
   have h := ctz_le64 x
   generalize Wasm.ctz x = c at h
-  bv_decide
+  bv_decide (timeout := 900)
 
 theorem rotl_nat64 (x y : BitVec 64) : x.rotateLeft y.toNat = (x <<< (y % 64#64)) ||| (x >>> (64#64 - y % 64#64)) := by
   rw [← rotl_mod64, BitVec.rotateLeft_mod_eq_rotateLeft]
@@ -114,8 +114,8 @@ macro "c03_tac" : tactic => `(tactic|
        | rfl
        | (subst_vars; simp [ctz_zero32, ctz_zero64]; done)
        | (c03_inj; done)
-       | (c03_inj; bv_decide)
-       | bv_decide
+       | (c03_inj; bv_decide (timeout := 900))
+       | bv_decide (timeout := 900)
        | (simp_all; done)))
 
 /-- `Sound` rows: the C function returned, so no UB branch was taken; the value then is WebAssembly's -/
@@ -127,7 +127,7 @@ macro "c03_sound" : tactic => `(tactic|
    repeat' split
    all_goals first
      | (intro h; cases h; done)
-     | (intro h; cases h; first | rfl | (c03_inj; done) | (c03_inj; bv_decide) | (simp_all; done))
+     | (intro h; cases h; first | rfl | (c03_inj; done) | (c03_inj; bv_decide (timeout := 900)) | (simp_all; done))
      | (intro h; simp_all; done)))
 
 end WaVerif.C03
